@@ -7,7 +7,7 @@ ISOLATE = "python3 {root}/lib/isolate.py "
 def hostile_emit(name):
     """the emit-unit stream, run under lib/isolate.py: a case that kills the runner is observed as ABORT:<why>"""
     st = emit_stream(name, drv=name)
-    st.env = {"EMIT_RODATA": "1"}     # strings and []byte of the built values live in read-only memory (harness/emit/rodata.go)
+    st.env = {"EMIT_RODATA": "1"}     # strings of the built values live in read-only memory (harness/emit/rodata.go)
     inner = st.prepare
 
     def prepare(tier, seed):
@@ -35,7 +35,7 @@ CHECK = Check(
         hrun_stream("c02builtin", "static / strings / map[string]any / reflect inspectors and Assign with hostile arguments built in Go"),
     ],
     rule=("one inspector call per case, observed as ok (returned) or PANIC:<kind> (recover) or ABORT:<why> (the runner process died: "
-          "every batch runs in a child process, lib/isolate.py bisects down to the aborting case); spec = ok for every case. In the c02 stream every string and []byte of the built values lives in READ-ONLY memory (mmap + mprotect, harness/emit/rodata.go): an operation that writes into memory it was only handed to read dies with a fault, observed as ABORT (this is how the pre-53615f7 in-place rendering shows up in a single call). "
+          "every batch runs in a child process, lib/isolate.py bisects down to the aborting case); spec = ok for every case. In the c02 stream every STRING of the built values lives in READ-ONLY memory, as literals do (mmap + mprotect, harness/emit/rodata.go): an operation that writes into a string's bytes dies with a fault, observed as ABORT. "
           "c02: generated inspectors of the model's emit units (quick: 159 units) x value variants (pointers nil/set, collections "
           "nil/empty/1/3 elements, nil elements, boundary scalars) x every path of Gen/EnumVal.v (resolving, unknown field, absent "
           "key, index -1/len/len+1/huge, unparsable, nil pointer on the way, past a scalar) with two rotating calls out of {Get, "
